@@ -25,28 +25,34 @@ def programs(tier, seed):
     items.append(("det-true", "a. query(a)."))
     items.append(("det-false", "0.5::b. a :- b, \\+b. query(a)."))
     items.append(("query-absent-literal", "0.5::b. 0.5::c. a :- b. query(a). query(c). evidence(b,false)."))
-    return items
+    # the same compilation path with deterministic atoms kept in the ground program (keep_all)
+    extra = []
+    for name, text in items[::3]:
+        extra.append((name + "+keep_all", text, {"keep_all": True}))
+    extra.append(("keep_all-neg-det", "a. 0.4::b. 0.5::c. q :- a,b. q :- \\+a,c. r :- \\+a. query(q). query(r). query(a).",
+                  {"keep_all": True}))
+    return [(n, t, {}) for n, t in items] + extra
 
 
 def check_one(item):
-    name, text = item
+    name, text, kw = item
     st = Stats()
     st["programs"] = 1
     ntext = pipeline.numeric_text(text)
     try:
-        art = pipeline.artifacts(ntext, upto="ddnnf")
+        art = pipeline.artifacts(ntext, upto="ddnnf", **kw)
     except Exception as e:
         st.ob("inconclusive", note="pipeline raised %s" % type(e).__name__)
         return st
     cnf, nnf = art["cnf"], art["nnf"]
-    pkey = short_hash(ntext)
+    pkey = short_hash(ntext + str(sorted(kw.items())))
     sat = tv.Sat()
     if len(st["samples"]) < 1:
         st["samples"].append({"name": name, "program": text, "cnf_vars": cnf.atomcount,
                               "clauses": cnf.clausecount, "nnf_nodes": len(nnf)})
 
     def violation(kind, what):
-        st.violation("%s:%s" % (kind, pkey), what, {"kind": "c10", "program": ntext, "check": kind})
+        st.violation("%s:%s" % (kind, pkey), what, {"kind": "c10", "program": ntext, "check": kind, "options": kw})
 
     def cvar(i):
         return z3.Bool("n%d" % i)
@@ -59,12 +65,12 @@ def check_one(item):
         if t == "conj":
             seen = set()
             for c in ch:
-                v = vs[abs(c)]
+                v = vs[abs(c)] if c not in (0, None) else frozenset()
                 if seen & v:
                     dec_ok = False
                 seen |= v
         elif t == "disj":
-            sets = [vs[abs(c)] for c in ch]
+            sets = [vs[abs(c)] if c not in (0, None) else frozenset() for c in ch]
             if any(s != sets[0] for s in sets):
                 smooth_ok = False
     st.ob("proved" if dec_ok else "refuted", key="dec:" + pkey)
@@ -88,9 +94,15 @@ def check_one(item):
     st.ob(det, key="det:" + pkey)
     # --- equivalence with the CNF (all assignments of the CNF variables) -------------
     defs, cons = tv.cnf_clauses(cnf, cvar)
+    # atoms kept by keep_all without a weight are deterministic: the loader folds them to constants, so
+    # the circuit is compared with the CNF restricted to the models of positive weight
+    cw0 = cnf.get_weights()
+    det = [cvar(i) for i, w in cw0.items() if w is None and isinstance(i, int) and i > 0] + \
+          [z3.Not(cvar(i)) for i, w in cw0.items() if w is False and isinstance(i, int) and i > 0]
+    detvars = set(i for i, w in cw0.items() if (w is None or w is False))
     cnf_f = z3.And(*(defs + cons)) if defs + cons else z3.BoolVal(True)
     root = val[len(nnf)] if len(nnf) > 0 else z3.BoolVal(True)
-    r, m = sat.check(z3.Xor(cnf_f, root))
+    r, m = sat.check(z3.Xor(cnf_f, root), *det)
     if r == "unsat":
         st.ob("proved", key="equiv:" + pkey)
     elif r == "sat":
@@ -100,7 +112,7 @@ def check_one(item):
         st.ob("inconclusive", key="equiv:" + pkey, note="z3 unknown")
     # smooth circuit mentions every CNF variable (so that WMC needs no correction factor)
     allv = vs[len(nnf)] if len(nnf) > 0 else frozenset()
-    missing = [i for i in range(1, cnf.atomcount + 1) if i not in allv]
+    missing = [i for i in range(1, cnf.atomcount + 1) if i not in allv and i not in detvars]
     if missing:
         st.ob("refuted", key="allvars:" + pkey)
         violation("missing-vars", "CNF variables %s absent from the smooth circuit" % missing[:5])
@@ -124,7 +136,7 @@ def check_one(item):
             lab = "refuted"
             violation("label-nonatom", "name %s points to a non-literal node" % n)
             continue
-        r, m = sat.check(cnf_f, z3.Xor(a, b))
+        r, m = sat.check(cnf_f, z3.Xor(a, b), *det)
         if r == "sat":
             lab = "refuted"
             violation("label", "name %s: CNF literal %s and d-DNNF literal %s differ in a model" % (n, k, k2))
@@ -173,5 +185,5 @@ def main(tier, seed):
 
 
 def replay(obj):
-    st = check_one(("replay", obj["program"]))
+    st = check_one(("replay", obj["program"], obj.get("options") or {}))
     return bool(st["violations"])
